@@ -8,7 +8,8 @@ RULE = ("LEX requests: every string over a 24-symbol representative alphabet up 
         "random strings over ASCII+Bangla to length 200, generated programs truncated at every position, and the "
         "character-class table over the whole alphabet. Tokens (kind, lexeme, line; numbers by bit pattern) are compared "
         "with the model; independently the implementation's token list is checked against the covering/line specification. "
-        "A case is non-trivial when the source contains at least one non-blank character; distinct by request text.")
+        "A case is non-trivial when the source contains at least one non-blank character; distinct by request text."
+        ' Keyword-neighbourhood (13 keywords x 12 invisible / combining / look-alike characters x 5 positions x 5 contexts) and number-neighbourhood (foreign digits, numeric signs, letters glued to Bangla digits) families.')
 ASSUMPTIONS = ["alphabet = ASCII ∪ U+0980–U+09FF ∪ {U+200C,U+200D}; characters outside it are not generated",
                "native memory limits are not modelled"]
 ALPHA24 = ["ক", "া", "১", "০", "-", ">", "=", "!", "<", ".", "#", "\\", '"', " ", "\n", "\t", "\r", "_", "/", "(", "]", "$", "a", ";"]
@@ -60,6 +61,20 @@ def lex_case(name, src):
                   nontrivial=src.strip() != "")
 
 
+def number_neighbourhood_sources():
+    """number literals with characters of other numeric scripts / numeric signs before, inside and after the Bangla digits
+    (ASCII digit, Bangla currency numerators U+09F4..U+09F9, a second point, a sign inside, a letter glued on): the
+    tokenizer answers with tokens or a syntax error for every one of them"""
+    B = "\u09e7\u09e8"        # ১২
+    odd = ["5", "0", "9", "\u09f4", "\u09f9", "\u09f7", ".", "..", "-", "_", "\u0995", "a", "\u09bc", "\u200d", "\u09e6"]
+    srcs = []
+    for o in odd:
+        for w in (B + o, o + B, B[0] + o + B[1], B + "." + o, B + o + ".", B + "." + B[0] + o, "-" + B + o, "-" + o + B, B + o + o):
+            for ctx in ("{}", "\u09a6\u09c7\u0996\u09be\u0993 {};", "x = {} + \u09e7;", "[{}, {}]", "x[{}]", "({})-{}"):
+                srcs.append(ctx.replace("{}", w))
+    return srcs
+
+
 def cases(rng, tier, stats):
     out = []
     maxlen = 4 if tier == "thorough" else 3
@@ -72,8 +87,25 @@ def cases(rng, tier, stats):
     stats["exhaustive"] = True
     stats["exhaustive_space"] = f"all strings of length <= {maxlen} over {len(ALPHA24)} symbols"
     # character classes over the whole alphabet
-    alpha = [chr(c) for c in range(0, 128)] + [chr(c) for c in range(0x980, 0xA00)] + ["‌", "‍"]
+    alpha = [chr(c) for c in range(0, 128)] + [chr(c) for c in range(0x980, 0xA00)] + ["\u200c", "\u200d"]
     out.append(C.Case("charclass", ["CHARCLASS " + C.hx("".join(alpha))], C.compare_exact, info={"chars": len(alpha)}))
+    # keyword neighbourhoods: every keyword decorated with characters that do not show (zero-width joiner / non-joiner, a
+    # nukta or another combining sign, no-break space, BOM, soft hyphen) before, inside and after it, or written with a
+    # look-alike: such a word is an identifier with exactly the written lexeme, never the keyword
+    ZW = ["\u200d", "\u200c", "\u09bc", "\u09cd", "\u00a0", "\ufeff", "\u00ad", "\u0981", "_", "-", "\u09e7", "1"]
+    nk = 0
+    for kw in sorted(G.KEYWORDS):
+        for z in ZW:
+            forms = {z + kw, kw + z, kw[:1] + z + kw[1:], kw[:-1] + z + kw[-1:], kw + z + z}
+            for w in sorted(forms):
+                for ctx in ("{} x = \u09e7;", "{} (x) {{ }}", "{};", "x {} y", "\n{}\n\"s\" {}"):
+                    out.append(lex_case("keyword-neighbourhood", ctx.format(w, w) if ctx.count("{}") == 2 else ctx.format(w)))
+                    nk += 1
+    stats["keyword_neighbourhood_cases"] = nk
+    nn = number_neighbourhood_sources()
+    for src in nn:
+        out.append(lex_case("number-neighbourhood", src))
+    stats["number_neighbourhood_cases"] = len(nn)
     # random strings
     pool = ALPHA24 + list("নামযদিঅথবালুপফাংফেরতথামাওআবারদেখাওসত্যমিথ্যামডিউল") + list("০১২৩৪৫৬৭৮৯") + list("+*%&|@,{}[)^~?:'`") + ["\x0c", "\x00", "\x7f", "৴", "‌"]
     nrand = 20000 if tier == "thorough" else 2000
